@@ -39,7 +39,7 @@ build() {
 # Properties with the concurrent-hands part (world Y) need a second binary,
 # built over a generated copy of $REPO in which every engine statement is a
 # scheduling point. The copy lives under /var/tmp only while it is compiled.
-needs_y() { case "$1" in C01|C02|C07|C08|C10|C14|C15|C16|C17|C18) return 0;; esac; return 1; }
+needs_y() { case "$1" in C01|C02|C04|C05|C06|C07|C08|C10|C11|C12|C13|C14|C15|C16|C17|C18) return 0;; esac; return 1; }
 
 build_y() {
   mkdir -p "$BUILD"
